@@ -54,6 +54,9 @@ fn main() {
 				props::c01::run(&mut out, &mut rng.fork(), thorough);
 			}
 			"C02" => {
+				// The correspondences of the models C02's theorems are about.
+				engines::input::run(&mut out, &mut rng.fork(), thorough);
+				engines::json::run(&mut out, &mut rng.fork(), thorough);
 				props::c02::run(&mut out, &mut rng.fork(), thorough);
 			}
 			"C04" => {
